@@ -147,7 +147,7 @@ def run(pid, tier, seed, replay=None):
     if codeplan is not None:
         nocover = sorted(n for n, c in gen.cover.items() if c["has"] and not c["covers"])
         out.extra["code_plan"] = {"programs_with_plan": len(codeplan), "executed_by_the_model": sum(1 for c in gen.cover.values() if c["covers"]),
-                                  "shape_drift": nocover, "inputs_on_which_the_code_plan_fails": len(gen.cpfail)}
+                                  "shape_drift": nocover, "index_columns_differ_from_model": sorted(n for n, c in gen.cover.items() if c["has"] and not c.get("idx", True)), "inputs_on_which_the_code_plan_fails": len(gen.cpfail)}
         if not gen.cpfail and not replay:
             ctl = semlib.codeplan_negative_controls(sel, codeplan, work)
             if ctl:
